@@ -84,4 +84,4 @@ with open(V + "/seeded/MATRIX.md", "w") as fh:
             rules = sorted(set(x.split(":")[0] for x in v))
             dets.append("%s [%s]" % (k, ", ".join(rules)))
         fh.write("| %s | %s | %s | %s |\n" % (sid, m.get("property"), (m.get("needs") or "").replace("|", "/")[:200],
-                                              "; ".join(dets) or "— not detected (value-level, DESIGN §12.5)"))
+                                              "; ".join(dets) or (("— " + m["status"][:160]) if m.get("status") else "— not detected (value-level, DESIGN §12.5)")))
